@@ -554,6 +554,10 @@ def precision_structs():
     yield [[3600.0000005, 0.0], [3600.0, 3.0]]
     yield [3600.0000005, 3600.0]
     yield [3600.0000005, 3.0, 3600.0, 0.0]
+    # bounds for which low + (high - low) != high in doubles (the normal form only re-orders what was given)
+    yield [0.5, 1024.9, 1.5, 8000.3]
+    yield [1.5, 16360.72, 0.5, 2121.8]
+    yield [0.5, 59.94, 1.5, 1000.1]
     yield 4999999.999999999
     yield [0.1, 4999999.999999999]
     yield [0.1, 4999999.999999999, 0.7, 0.30000000000000004]
